@@ -294,7 +294,10 @@ bool synthInitial(const json& spec, NifFile& nif, Ctx& ctx, std::string* fileByt
 		for (auto& rf : blocks[b].refs) {
 			bool isPtr = ptrSet.count(rf.first) > 0;
 			std::vector<uint32_t> cands;
-			if (isPtr) { for (size_t j = 0; j < b; j++) if (classDerivesFrom(cls[j], rf.second)) cands.push_back(uint32_t(j)); }
+			if (isPtr) {
+				// pointers are back references, not ownership: they may designate any block of a fitting type, also a later one
+				for (size_t j = 0; j < blocks.size(); j++) if (j != b && classDerivesFrom(cls[j], rf.second)) cands.push_back(uint32_t(j));
+			}
 			else { for (size_t j = b + 1; j < blocks.size(); j++) if (classDerivesFrom(cls[j], rf.second)) cands.push_back(uint32_t(j)); }
 			// a geometry-data block belongs to one shape (shapes cache a raw pointer to it; sharing one data block between
 			// shapes makes DeleteShape of one dangle the other - real, but outside all properties)
@@ -394,7 +397,9 @@ static const std::vector<std::string>& childSlotTypes(NiHeader& hdr, const std::
 	return cache[type] = out;
 }
 
-bool attachBelowShape(NifFile& nif, NiShape* shape, const std::string& type, uint64_t seed, Ctx& ctx) {
+// widePointers: back references of the attached block that fit neither its carrier nor the owner designate any fitting block of
+// the file (or one added for the purpose) - a block outside the shape's subtree, which a clone cannot follow: not for C14
+bool attachBelowShape(NifFile& nif, NiShape* shape, const std::string& type, uint64_t seed, Ctx& ctx, bool widePointers) {
 	auto& hdr = nif.GetHeader();
 	if (!shape || isBuilderOnly(type) || type == "NiUnknown") return false;
 	// scene-graph objects (nodes, shapes, particle systems) do not hang below a shape
@@ -505,17 +510,39 @@ bool attachBelowShape(NifFile& nif, NiShape* shape, const std::string& type, uin
 		rootSlot = fit[r.below(uint32_t(fit.size()))];
 	}
 	for (size_t k = 0; k < chain.size(); k++) {
+		// back references = the serialised references that are not child references (whether or not the block enumerates them
+		// as pointers: that enumeration is what some properties are about)
 		std::set<NiRef*> ps;
-		objs[k]->GetPtrs(ps);
+		objs[k]->GetChildRefs(ps);
 		uint32_t pred = k == 0 ? rootSlot->owner : ids[k - 1];
 		for (auto& rf : refsOf[k]) {
-			if (!ps.count(rf.first)) continue;
+			if (ps.count(rf.first)) continue;
 			auto po = hdr.GetBlock<NiObject>(pred);
 			std::string pc = po ? classOfBlockType(po->GetBlockName()) : "";
 			if (classDerivesFrom(pc, rf.second)) rf.first->index = pred;
 			else {
 				auto oo = hdr.GetBlock<NiObject>(rootSlot->owner);
 				if (oo && classDerivesFrom(classOfBlockType(oo->GetBlockName()), rf.second)) rf.first->index = rootSlot->owner;
+				else if (widePointers && k + 1 == chain.size()) {
+					// the block itself: any block of the file that fits, else a populated block of a fitting type added for the purpose
+					std::vector<uint32_t> fit;
+					for (uint32_t j = 0; j < hdr.GetNumBlocks(); j++)
+						if (j != ids[k]) { auto bo = hdr.GetBlock<NiObject>(j); if (bo && classDerivesFrom(classOfBlockType(bo->GetBlockName()), rf.second)) fit.push_back(j); }
+					if (!fit.empty()) rf.first->index = fit[r.below(uint32_t(fit.size()))];
+					else {
+						std::vector<std::string> cands;
+						for (auto& u : all) if (classDerivesFrom(classOfBlockType(u), rf.second)) cands.push_back(u);
+						if (!cands.empty()) {
+							std::vector<std::pair<NiRef*, std::string>> hrefs;
+							auto helper = synthBlock(hdr, cands[r.below(uint32_t(cands.size()))], seed * 17 + 3, &hrefs);
+							if (helper) {
+								for (auto& hr : hrefs) hr.first->index = NIF_NPOS;
+								rf.first->index = hdr.AddBlock(std::move(helper));
+								ctx.probe("attach_added_pointer_target");
+							}
+						}
+					}
+				}
 			}
 		}
 	}
